@@ -309,11 +309,35 @@ func seqMap(a map[string]string) {
 		}
 		if hm != 0 {
 			// fully colliding keys make long chains: a chain-with-holes phase, then short mixed traffic
-			n := 7 + r.intn(10)
+			n := 7 + r.intn(22)
 			for i := 0; i < n; i++ {
 				k := fmt.Sprintf("c%d", i)
 				g.add(k)
 				emit(fmt.Sprintf("store %s %s", k, g.v()))
+			}
+			// a chain of four or more buckets: empty one overflow bucket in the MIDDLE of the chain completely, look at
+			// everything behind it, then empty the LAST bucket and look again (an emptied bucket must not cut off, or
+			// be taken for the end of, the chain)
+			per := 5
+			if variant == "map" {
+				per = 3
+			}
+			if nb := (n + per - 1) / per; nb >= 4 && r.chance(2, 3) {
+				mid := 1 + r.intn(nb-2)
+				for i := mid * per; i < (mid+1)*per && i < n; i++ {
+					emit(fmt.Sprintf("%s c%d", []string{"delete", "loadanddelete"}[r.intn(2)], i))
+				}
+				for i := 0; i < n; i++ {
+					emit(fmt.Sprintf("load c%d", i))
+				}
+				for i := (nb - 1) * per; i < n; i++ {
+					emit(fmt.Sprintf("delete c%d", i))
+				}
+				for i := 0; i < n; i++ {
+					emit(fmt.Sprintf("load c%d", i))
+				}
+				emit("range *")
+				emit("size")
 			}
 			// empty (part of) the earliest buckets, then look at everything behind the holes
 			nd := 1 + r.intn(6)
